@@ -523,9 +523,13 @@ class RunLoop(Unit):
                     note='the previous packet has been reacted to before the next read')
             E.check('read.outside-lock', lock.depth == 0, note='reading happens without the write lock')
             timeouts.append(timeout)
-            k = E.fork(3, 'read')
+            k = E.fork(4, 'read')
             if k == 0:
                 return None
+            if k == 3:
+                # the reader fails (end of stream, malformed frame, socket error): nothing in _run may swallow that
+                G['raised'] = EOFError('Unexpected end of stream (model)')
+                raise G['raised']
             G['reads'] = G['reads'] + 1
             return types.SimpleNamespace(packet_name='disconnect' if k == 2 else 'other', seq=G['reads'])
 
@@ -534,6 +538,9 @@ class RunLoop(Unit):
             E.check('react.exactly-once-in-order', packet.seq == G['reacts'] + 1 if not isinstance(packet.seq, int) or
                     not isinstance(G['reacts'], int) else packet.seq == G['reacts'] + 1)
             G['reacts'] = G['reacts'] + 1
+            if packet.packet_name == 'other' and E.fork(2, 'reaction-raises'):
+                G['raised'] = ValueError('listener failed (model)')
+                raise G['raised']
             if packet.packet_name == 'disconnect':
                 unit.thread.__dict__['interrupt'] = True       # PlayingReactor.react -> Connection.disconnect()
             elif E.fork(2, 'reaction-swaps-transport'):
@@ -558,10 +565,17 @@ class RunLoop(Unit):
         if outcome == 'returned':
             # the outer loop's exit branch: only reached when interrupt is set
             E.check('run.returns-only-when-interrupted', t.interrupt is True)
+        elif G.get('raised') is not None:
+            E.check('run.propagates-read-and-react-errors', outcome is G['raised'],
+                    note='an exception of read_packet / _react leaves _run unchanged (it is routed by run(): C14/C15); got %r' % (outcome,))
         else:
             E.check('run.raises-only-pending-write-error', outcome is ioerr and G['pending'] is ioerr,
                     note='the only exception _run itself raises is a pending write error (%r)' % (outcome,))
-        E.check('run.reads-equal-reacts', G['reads'] == G['reacts'])
+        if G.get('raised') is not None:
+            E.check('run.error-not-swallowed', outcome is G['raised'],
+                    note='read_packet / _react raised %r but _run ended with %r' % (G['raised'], outcome))
+        else:
+            E.check('run.reads-equal-reacts', G['reads'] == G['reacts'])
         return None
 
     def replay(self, model, label):
@@ -620,7 +634,31 @@ def replay_run():
         bad = 'written order broken (first difference at %d)' % next(i for i, (a, b) in enumerate(zip(written, range(700))) if a != b)
     elif reacted != ['p%d' % i for i in range(120)]:
         bad = 'reactions %r...' % (reacted[:5],)
-    return dict(confirmed=bad is not None, n=820, call='_run with 700 outgoing / 120 incoming packets', observed=bad or 'conforms')
+    if bad is None:
+        # the reader fails: _run must end with that very exception (it is run() that routes it)
+        for exc in (EOFError('Unexpected end of stream.'), ValueError('bad frame'), OSError(104, 'Connection reset by peer')):
+            conn2 = types.SimpleNamespace()
+            conn2._write_lock = threading.RLock()
+            conn2._outgoing_packet_queue = deque()
+            conn2._pop_packet = lambda: False
+            calls = []
+
+            def failing(stream, timeout=0, exc=exc):
+                calls.append(1)
+                if len(calls) > 3:
+                    t2.interrupt = True           # give a spinning loop a way out so that the replay terminates
+                    return None
+                raise exc
+            conn2.reactor = types.SimpleNamespace(read_packet=failing)
+            conn2.file_object = object()
+            conn2._react = lambda p: None
+            t2 = NetworkingThread(conn2)
+            k, v = native_call(t2._run, timeout=10)
+            if k != 'raise' or v is not exc:
+                bad = 'read_packet raised %r but _run %s (%d read attempts)' % (
+                    exc, 'returned' if k == 'ok' else 'ended with %r' % (v,), len(calls))
+                return dict(confirmed=True, n=823, call='_run with a reader that fails', observed=bad)
+    return dict(confirmed=bad is not None, n=823, call='_run with 700 outgoing / 120 incoming packets', observed=bad or 'conforms')
 
 
 class HandleExit(Unit):
